@@ -46,6 +46,27 @@ def gen(tier: str, seed: int) -> list[Case]:
         cases.append(Case(cid=f"c12-{i}", files=pg.render(pkg), opts=(["-nc"] if i % 4 == 3 else []) + noise_opts(seed, PID, i), meta={"pkg": pkg}, reach=REACH))
     for name, pkg in scenarios(rng).items():
         cases.append(Case(cid=f"c12-scn-{name}", files=pg.render(pkg), opts=[], meta={"pkg": pkg}, reach=REACH))
+    # structure and references of the inventory for every declaration form of C01's library, its package scenarios and
+    # interface stubs whose results only the docstring knows, under the structured docstring styles too
+    from ..scenarios import PACKAGE_SCENARIOS
+    from . import c01
+
+    for i in range(3 if tier == "quick" else 40):
+        ks = c01.kitchen_sink(rng_for(seed, PID, "kitchen-sink", i), gated, 130 + i)
+        cases.append(Case(cid=f"c12-kitchen-{i}", files=ks, opts=[["--docstyle", "numpydoc"], ["--docstyle", "google", "-tsp", "docstring"], ["-nc", "--docstyle", "rest"], []][i % 4], meta={}, reach=REACH))
+    for k, (feat, sfiles, optsets) in enumerate(PACKAGE_SCENARIOS):
+        if feat in gated:
+            continue
+        files = {"src/" + fk: ({"hex": fv.hex()} if isinstance(fv, bytes) else fv) for fk, fv in sfiles.items()}
+        cases.append(Case(cid=f"c12-scenario-{feat}", files=files, opts=list(optsets[(k + seed) % len(optsets)]), meta={}, reach=REACH))
+    for style, doc in (("numpydoc", "Returns\n    -------\n    value : int\n        Told by the docstring only.\n"), ("google", "Returns:\n        int: Told by the docstring only.\n"), ("rest", ":returns: Told by the docstring only.\n    :rtype: int\n")):
+        src = (
+            f'class Interface:\n    def lookup(self, key):\n        """Look up.\n\n    {doc}    """\n        raise NotImplementedError\n\n'
+            "    def __init__(self, n=0):\n        self.n = n\n\n    def clear(self):\n        pass\n\n\n"
+            f'def first(key):\n    """First.\n\n    {doc}    """\n    ...\n\n\ndef close():\n    pass\n\n\ndef reset(n=0):\n    n += 1\n\n\n'
+            "class Holder:\n    def __init__(self):\n        self.items = []\n\n    def wipe(self):\n        ...\n"
+        )
+        cases.append(Case(cid=f"c12-docstring-results-{style}", files={"src/pk/__init__.py": "", "src/pk/a_iface.py": src, "src/pk/z_more.py": "def later():\n    pass\n\n\nclass Late:\n    def __init__(self, q=1):\n        self.q = q\n"}, opts=["--docstyle", style], meta={}, reach=REACH))
     return cases
 
 
@@ -243,7 +264,9 @@ def make_judge(chk: Check):
             return [Viol("invalid-json", "top", {"error": str(e)[:200]})]
         viols += structural(api)
         chk.case_ok(f"structural:{min(len(api.get('classes', [])), 5)}:{min(len(api.get('enums', [])), 3)}")
-        pkg: pg.Pkg = case.meta["pkg"]
+        pkg: pg.Pkg | None = case.meta.get("pkg")
+        if pkg is None:
+            return viols  # packages without a model (form library, scenarios): structure and references only
         ids = {k: {e["id"]: e for e in api.get(k, [])} for k in LISTS}
         # modules (packages appear as <pkg path> with name __init__)
         for m in pkg.modules:
@@ -319,7 +342,13 @@ def main(tier: str, seed: int) -> int:
     cases = gen(tier, seed)
     judge = make_judge(chk)
     drive(chk, cases, judge, per_proc=3)
-    from .c03 import build_probe
+    from .c03 import build_probe as build_model_probe
+
+    def build_probe(f: dict) -> Case:
+        pr = f["probe"]
+        if "builder" in pr:
+            return build_model_probe(f)
+        return Case(cid="probe:" + f["id"], files=pr["files"], opts=pr.get("opts", []), meta={}, reach=REACH)  # structure and references only
 
     chk.run_probes(lambda c, r, probe=None: judge(c, r), build_case=build_probe)
     chk.assumptions = ["superclass qualified names are compared for classes of the package (aliases resolved to the defining module)"]
